@@ -59,6 +59,15 @@ class InitMethod(MethodDescriptor):
                             continue
                         if attr in kwargs:
                             parent_kwargs[attr] = kwargs.pop(attr)
+                            # The parent constructor will not copy values that
+                            # are routed through it, so we protect them here.
+                            if (
+                                parent_kwargs[attr] is not MISSING
+                                and not instance_attr_spec.do_not_copy
+                            ):
+                                parent_kwargs[attr] = protect_via_deepcopy(
+                                    parent_kwargs[attr]
+                                )
                         else:
                             # Parent constructor may may be overridden, and not pick up
                             # subclass defaults. We pre-emptively solve this here.
